@@ -25,7 +25,7 @@ class Contract:
                  props=(), self_type=None, fields=None, is_property=False, on_call=None, let=None,
                  pure=True, kind='code', note='', allow_assert_fail=False, cases=None, hints=None,
                  yields=None, trusted=False, statement=None, varargs=None, kwargs=None, defaults=None,
-                 lemmas=None, timeout=None, negative_controls=None, variant=None, result_from=None, ghost_exit=None, source=None, kinds=None, defines=None, cuts=None):
+                 lemmas=None, timeout=None, negative_controls=None, variant=None, result_from=None, ghost_exit=None, source=None, kinds=None, defines=None, cuts=None, assume_asserts=None):
         self.file, self.qual = file, qual
         self.params = dict(params or {})        # name -> type string (ordered)
         self.requires = _clauses(requires)
@@ -57,6 +57,7 @@ class Contract:
         self.lemmas = list(lemmas or [])
         self.timeout = timeout
         self.variant = variant
+        self.assume_asserts = list(assume_asserts or [])   # code asserts (statement text prefixes) that are ASSUMED, not proved: listed in the evidence, bounded only
         self.cuts = list(cuts or [])              # (statement text prefix, label, expr): stepping stones proved right after that statement, then assumed
         self.defines = _clauses(defines)          # definitional clauses about uninterpreted spec symbols: assumed at call sites, no obligation (listed as A-DEF)
         self.kinds = dict(kinds or {})            # parameter name -> Python type name of an opaque (elem) parameter, for isinstance
@@ -81,7 +82,11 @@ CLASSES = {}      # class name -> {'file': relpath or None, 'fields': {name: typ
 
 
 def declare_class(name, file=None, fields=None):
-    CLASSES[name] = {'file': file, 'fields': dict(fields or {})}
+    if name in CLASSES:
+        CLASSES[name]['fields'].update(fields or {})
+        CLASSES[name]['file'] = CLASSES[name]['file'] or file
+    else:
+        CLASSES[name] = {'file': file, 'fields': dict(fields or {})}
 
 
 UFUNCS = {}       # name -> (arg sorts, result sort) with sorts in {'int','bool','real','elem'}: uninterpreted spec functions
